@@ -594,6 +594,43 @@ def r12_ring_cache(idx, r):
     r.ok("ring-table-reads-scanned", core)
 
 
+def r13_single_parent_paths(idx, r):
+    """(a) FuelHandler.dischargeSwap re-charges an assembly that may sit in the spent-fuel pool: it is taken out of the pool whenever it is
+    there - under no other condition - before the core adopts it, or it ends up listed by two parents.  (b) getAncestorAndDistance applies
+    the predicate to the object itself before it looks at the parent, so the parentless root can be the answer.  (c) a __deepcopy__ override
+    registers only the new object in the memo: mapping any other part of the original onto itself makes the copy share that part."""
+    f = idx.method("armi.physics.fuelCycle.fuelHandlers.FuelHandler", "dischargeSwap")
+    inc = f.params()[1]
+    rm = [c for c in iter_calls(f.node) if call_attr(c) == "remove" and "sfp" in norm(c.func) and c.args and norm(c.args[0]) == inc]
+    if len(rm) != 1:
+        raise AnchorMissing("dischargeSwap: removal of the incoming assembly from the pool")
+    conds = [norm(t) for t, p in path_conditions(f.node, rm[0]) if p]
+    extra = [c for c in conds if not (("sfp" in c and "is not None" in c and " and " not in c) or (c.startswith(inc + " in ") and "sfp" in c))]
+    r.require(not extra, "dischargeSwap:incoming-leaves-the-pool-whenever-it-is-there", f, node=rm[0],
+              msg=f"the incoming assembly is only taken out of the pool when {extra}: otherwise the core adopts an assembly the pool still lists (two parents)")
+    g = idx.method(AO, "getAncestorAndDistance")
+    fn = g.params()[1]
+    hit = [x for x in walk_local(g.node) if isinstance(x, ast.Return) and isinstance(x.value, ast.Tuple) and norm(x.value.elts[0]) == "self"]
+    if len(hit) != 1:
+        raise AnchorMissing("getAncestorAndDistance: return self, distance")
+    pc = [(norm(t), p) for t, p in path_conditions(g.node, hit[0])]
+    r.require(not any("parent" in c for c, _p in pc) and any(c.startswith(fn + "(") for c, p in pc if p), "getAncestorAndDistance:self-tested-before-the-parent", g, node=hit[0],
+              msg=f"the object itself is returned only under {pc}: a root (parent None) that satisfies the predicate is never found, so a block of a stand-alone assembly has no Assembly ancestor")
+    n = 0
+    for c in idx.subclasses(idx.cls(AO)):
+        d = c.methods.get("__deepcopy__")
+        if d is None:
+            continue
+        n += 1
+        memo = d.params()[1]
+        sts = [s_ for s_ in iter_stores(d.node) if s_.kind == "subscript" and norm(s_.node.value) == memo]
+        bad = [s_ for s_ in sts if norm(s_.node.slice) != "id(self)"]
+        r.require(not bad, f"{c.name}.__deepcopy__:memo-holds-only-the-new-object", d, node=bad[0].stmt if bad else None,
+                  msg=f"`{norm(bad[0].stmt) if bad else ''}` tells deepcopy that a part of the original is already copied: the copy then SHARES that part with the original (and __setstate__ re-anchors it to the copy)")
+    if n < 1:
+        raise AnchorMissing("a __deepcopy__ override below ArmiObject")
+
+
 def run(idx, chk):
     chk.explanation = (
         "C01: who may write Composite._children / .parent (frozen owners), pairing of parent/list/locator effects on every path of "
@@ -626,3 +663,5 @@ def run(idx, chk):
                  necessary="queries by flags return exactly the objects a naive walk with the same arguments returns")
     chk.run_rule("R01.12", "the memo of occupied locations per circular ring is dropped by Core.add/removeAssembly and never written by a query", lambda r: r12_ring_cache(idx, r), floor=3,
                  necessary="ring queries return the assemblies a naive walk over the current children returns")
+    chk.run_rule("R01.13", "a re-charged assembly leaves the pool whenever it is there; ancestor search tests self first; deepcopy memo holds only the new object", lambda r: r13_single_parent_paths(idx, r), floor=3,
+                 necessary="every object has at most one parent; copies share no node with the original; queries agree with a naive walk")
